@@ -680,3 +680,31 @@ Proof.
     { apply Nat.ltb_lt. rewrite app_length. cbn. lia. }
     rewrite Hl, L. cbn [bind]. rewrite remove_at_app. reflexivity.
 Qed.
+
+(* ------------------------------------------------------------------ fs: one reply whatever the environment is *)
+Lemma step_fs st t o : command_of t = "fs" -> step st t o = do_fs st o.
+Proof.
+  intros Hc. unfold step. rewrite Hc. cbn [String.eqb Ascii.eqb Bool.eqb orb andb is_id_command]. reflexivity.
+Qed.
+
+(* every `fs` frame - any body, any path text, any file metadata (any type, length, modification / creation time
+   before, at or after the epoch or unavailable), any read_dir outcome, any archive - is answered by exactly one
+   frame that is ok: or err:, and the session state is untouched *)
+Lemma step_fs_one st t o :
+  command_of t = "fs" ->
+  step st t o = Ok (st, [RErr EJsonParse]) \/ step st t o = Ok (st, [RErr ENotObject]) \/
+  step st t o = Ok (st, [RErr EFsErr]) \/ exists v, step st t o = Ok (st, [ROk (OkFs v)]).
+Proof.
+  intros Hc. rewrite (step_fs st t o Hc). destruct (do_fs_one st o) as [st' [rp H]].
+  destruct (do_fs_inv _ _ _ _ H) as [-> [E|[E|[E|[v E]]]]]; rewrite H, E; eauto.
+Qed.
+
+(* stat of an existing path: the reply is the stat value computed from the metadata, for every metadata *)
+Lemma step_fs_stat_existing st t o name m :
+  command_of t = "fs" -> o_json o = JGood name ->
+  fo_cmd_path (o_fs o) = true -> fo_cmd (o_fs o) = FsCmdStat -> fo_meta (o_fs o) = MetaOk m ->
+  step st t o = Ok (st, [ROk (OkFs (stat_value m))]).
+Proof.
+  intros Hc Hj H1 H2 H3. rewrite (step_fs st t o Hc). unfold do_fs. rewrite Hj.
+  rewrite (process_fs_cmd_stat_existing _ m H1 H2 H3). reflexivity.
+Qed.
